@@ -420,6 +420,9 @@ def to_hdf(
 
     full_filename: Path = filename.resolve()
 
+    if full_filename.exists():
+        raise FileExistsError(f"File {full_filename} already exists!")
+
     with h5.File(full_filename, "w") as h5file:
         h5file.attrs["pyxel-version"] = version
         if name == "detector":
@@ -509,6 +512,10 @@ def to_txt(
         filename = full_output_folder / f"{name}.txt"
 
     full_filename: Path = filename.resolve()
+
+    if full_filename.exists():
+        raise FileExistsError(f"File {full_filename} already exists!")
+
     np.savetxt(full_filename, data, delimiter=" | ", fmt="%.8e")
 
     return full_filename
@@ -545,6 +552,10 @@ def to_csv(
         filename = full_output_folder / f"{name}.csv"
 
     full_filename = filename.resolve()
+
+    if full_filename.exists():
+        raise FileExistsError(f"File {full_filename} already exists!")
+
     try:
         data.to_csv(full_filename, float_format="%g")
     except AttributeError:
